@@ -33,8 +33,9 @@ def scenario_frames(case):
             fs.append(F.ident(a, ac["callsign"]))
         if ac.get("position", True):
             alt = 1000 + 25 * ac.get("alt", 100)
+            # a climbing / descending aircraft: the odd report carries another altitude
             fs.append(F.position(a, lat, lon, 0, alt_ft=alt))
-            fs.append(F.position(a, lat, lon, 1, alt_ft=alt))
+            fs.append(F.position(a, lat, lon, 1, alt_ft=max(alt + 25 * ac.get("climb", 0), -975)))
         if ac.get("velocity"):
             fs.append(F.velocity(a, ac["velocity"][0], ac["velocity"][1], 64 * (i % 5)))
         for _ in range(ac.get("extra", 0)):
@@ -380,6 +381,7 @@ def worker(args):
         "callsign": st.one_of(st.none(), st.sampled_from(["KLM1023", "BAW9", "N123AB", "DLH4TK", "TOOLONG8"])),
         "position": st.sampled_from([True, True, True, True, False]),
         "alt": st.integers(0, 1500),
+        "climb": st.sampled_from([0, 0, 1, -1, 40, -40, 400]),
         "velocity": st.one_of(st.none(), st.tuples(st.integers(-400, 400), st.integers(-400, 400))),
         "extra": st.integers(0, 3),
     })
